@@ -242,8 +242,17 @@ def run_one(m, jobs):
         if rc:
             res["status"] = "does_not_import"
             return res
-        rc, out = sh(SUITE, cwd=d, env=env, timeout=1500)
-        tail = out.strip().splitlines()[-1] if out.strip() else ""
+        for attempt in range(8):
+            rc, out = sh(SUITE, cwd=d, env=env, timeout=1500)
+            tail = out.strip().splitlines()[-1] if out.strip() else ""
+            failed = [l for l in out.splitlines() if l.startswith("FAILED")]
+            # tests/e2e binds a fixed TCP port: suites running in parallel (this sweep, the
+            # seeded-change runs) collide there - a fast failure of only that test is retried
+            if "193 passed" in tail or not failed or not all("tests/e2e/" in l for l in failed) \
+                    or "Timeout" in out:
+                break
+            import time as _t
+            _t.sleep(0.7 * (attempt + 1))
         res["suite"] = tail[:80]
         if "193 passed" not in tail:
             res["status"] = "killed_by_suite"
